@@ -71,7 +71,12 @@ def run_exact(ctx, states):
             if not (0 < gu <= bu + 1e-9): bad('get_generalized_ppt_boundary', 'boundary outside (0, beta_DM]', dict(got=gu))
             elif not E.is_generalized_ppt(E.hf_interpolate_dm(rho, beta=gu * (1 - 1e-3)), dims): bad('get_generalized_ppt_boundary', 'state just inside the reported boundary fails is_generalized_ppt', dict(got=gu))
             elif gu < bu * (1 - 2e-3) and E.is_generalized_ppt(E.hf_interpolate_dm(rho, beta=gu * (1 + 1e-3)), dims): bad('get_generalized_ppt_boundary', 'state just outside the reported boundary still passes is_generalized_ppt', dict(got=gu))
-            # without the within_dm clamp the PPT boundary is the threshold of the partial transpose alone
+            # without the within_dm clamp the PPT boundary is the threshold of the partial transpose alone - it may lie beyond the state space
+            bpt_only = math.sqrt(rf(obs['ptonly2']))
+            for kw in (dict(within_dm=False), dict(within_dm=False, dm_norm=numqi.gellmann.dm_to_gellmann_norm(rho))):
+                ql, qu = E.get_ppt_boundary(rho, dims, **kw)
+                if core.gt(abs(qu - bpt_only), 1e-9 * max(1, bpt_only)):
+                    bad('get_ppt_boundary', 'upper boundary with within_dm=False differs from the exact threshold of the partial transpose alone', dict(got=float(qu), expected=bpt_only, kwargs=sorted(kw)))
             if pu > bu + 1e-12: bad('get_ppt_boundary', 'PPT boundary exceeds the state-space boundary (within_dm=True)')
         except Exception as ex:
             ctx.violation('C06:exception:exact-ray', type(ex).__name__ + ': ' + str(ex)[:160], data)
